@@ -13,7 +13,10 @@ C(t) == R(t).c
 ExpReq(t)  == Wrap(R(t).fam, ReqHdr(C(t)), Request(C(t)))
 ExpResp(t) == Wrap(R(t).fam, RespHdr(C(t)), Response(C(t)))
 ReqIsSpec(t)  == SameDoc(R(t).obs.req, ExpReq(t))
-Delivered(t)  == R(t).obs.ncalls = 1 /\ NormArgs(C(t), R(t).obs.args) = NormArgs(C(t), C(t).vals)
+\* with polymorphism disabled only the declared classes travel
+Sent(c, k, v) == IF c.poly THEN v ELSE Proj(c.args[k].t, v)
+Back(c, k, v) == IF c.poly THEN v ELSE Proj(c.rets[k], v)
+Delivered(t)  == R(t).obs.ncalls = 1 /\ NormArgs(C(t), R(t).obs.args) = NormArgs(C(t), [k \in 1..Len(C(t).vals) |-> Sent(C(t), k, C(t).vals[k])])
 RespIsSpec(t) == SameDoc(R(t).obs.resp, ExpResp(t))
 \* request headers reach user code (ctx.in_header), one value per declared header
 HeadersDelivered(t) == "inh" \notin DOMAIN R(t).obs \/
@@ -29,7 +32,7 @@ Loose(v) == IF Hollow(v) THEN Nil
 LooseRets(c, vs) == [k \in 1..Len(c.rets) |-> Loose(Norm(c.rets[k], vs[k]))]
 Decoded(t, who) == who \notin DOMAIN R(t).obs \/
      (IF who = "zeep" THEN LooseRets(C(t), R(t).obs[who]) = LooseRets(C(t), C(t).rvals)
-      ELSE RetNorm(C(t), R(t).obs[who]) = RetNorm(C(t), C(t).rvals))
+      ELSE RetNorm(C(t), R(t).obs[who]) = RetNorm(C(t), [k \in 1..Len(C(t).rets) |-> Back(C(t), k, C(t).rvals[k])]))
 ZeepDelivered(t) == "zeepargs" \notin DOMAIN R(t).obs \/
      [k \in 1..Len(C(t).args) |-> Loose(NormArgs(C(t), R(t).obs.zeepargs)[k])] = [k \in 1..Len(C(t).args) |-> Loose(NormArgs(C(t), C(t).vals)[k])]
 Fails(t) == (IF ReqIsSpec(t) THEN {} ELSE {"ReqIsSpec"}) \cup (IF Delivered(t) THEN {} ELSE {"Delivered"})
